@@ -260,6 +260,11 @@ def gen_cases(ctx):
     maxlen = 5 if ctx.tier == 'thorough' else 4
     cases = []
     n = 0
+    import glob
+    import json
+    for path in sorted(glob.glob(os.path.join(os.path.dirname(os.path.dirname(os.path.abspath(__file__))), 'corpus', 'C08', '*.json'))):
+        for c in json.load(open(path)).get('cases', []):
+            cases.append((c['tid'], tuple(c['word']), c['raise_after'], c['kind']))
     for ln in range(0, maxlen + 1):
         for word in itertools.product(ALPHABET, repeat=ln):
             points = [(None, None)] + [(k, kind) for k in range(ln + 1) for kind in 'EK']
